@@ -28,7 +28,10 @@ def code_from_blocks(blocks, first_tag=1, tags=True):
     return items
 
 
-def make_contract(init_blocks, run_blocks=None, auxdata="a2646970667358", data_extra=None, source_list=None):
+def make_contract(init_blocks, run_blocks=None, auxdata="a2646970667358", data_extra=None, source_list=None,
+                  more_run_blocks=()):
+    """more_run_blocks: further code-bearing data sections ("1", "2", ...), e.g. a child contract deployed by the
+    constructor next to the run code."""
     asm = {".code": code_from_blocks(init_blocks)}
     data = {}
     if run_blocks is not None:
@@ -36,6 +39,8 @@ def make_contract(init_blocks, run_blocks=None, auxdata="a2646970667358", data_e
         if auxdata is not None:
             sub[".auxdata"] = auxdata
         data["0"] = sub
+    for n, blks in enumerate(more_run_blocks):
+        data[str(n + 1)] = {".auxdata": "bb%02d" % n, ".code": code_from_blocks(blks, first_tag=200 + 100 * n)}
     if data_extra:
         data.update(data_extra)
     asm[".data"] = data
